@@ -244,6 +244,118 @@ def tan_args(r):
     return at.args
 
 
+def iteration_shape(chk, prog):
+    """ITER-TEST: the latitude iteration continues while the last change is large -- `while |old - new| > delta` with a small positive literal delta, the body
+    saving the current value into `old` before computing the new one.  (Termination/accuracy of the iteration is numerical and not decided; this is the shape
+    without which the loop exits at once or never.)"""
+    f = prog.func(FR + "::ecef2geodetic")
+    loop = next((n for n in ast.walk(f.node) if isinstance(n, ast.While)), None)
+    if loop is None:
+        return
+    site = FR + "::ecef2geodetic::while " + ast.unparse(loop.test)[:50]
+    t = loop.test
+    problems = []
+    if not (isinstance(t, ast.Compare) and len(t.ops) == 1 and isinstance(t.ops[0], (ast.Gt, ast.GtE))):
+        problems.append("the loop test is not `<change> > <tolerance>`: the iteration does not continue while the estimate is still moving")
+    else:
+        lhs, rhs = t.left, t.comparators[0]
+        inner = lhs.args[0] if isinstance(lhs, ast.Call) and ast.unparse(lhs.func) in ("abs", "np.abs", "np.fabs", "np.absolute") and lhs.args else None
+        if not (isinstance(inner, ast.BinOp) and isinstance(inner.op, ast.Sub) and isinstance(inner.left, ast.Name) and isinstance(inner.right, ast.Name)):
+            problems.append("the tested change is not |old - new| of two locals")
+        else:
+            a_, b_ = inner.left.id, inner.right.id
+            tol = None
+            if isinstance(rhs, ast.Constant):
+                tol = rhs.value
+            elif isinstance(rhs, ast.Name):
+                for s_ in ast.walk(f.node):
+                    if isinstance(s_, ast.Assign) and isinstance(s_.targets[0], ast.Name) and s_.targets[0].id == rhs.id and isinstance(s_.value, ast.Constant):
+                        tol = s_.value.value
+            if not (isinstance(tol, (int, float)) and 0 < tol <= 1e-6):
+                problems.append("the tolerance of the loop test is not a positive literal <= 1e-6 rad (got %r)" % (tol,))
+            # body: one of the two names is saved from the other before the other is recomputed
+            saves = [(i, s_) for i, s_ in enumerate(loop.body) if isinstance(s_, ast.Assign) and isinstance(s_.targets[0], ast.Name) and isinstance(s_.value, ast.Name)
+                     and {s_.targets[0].id, s_.value.id} == {a_, b_}]
+            if not saves:
+                problems.append("the loop body never saves the current latitude into the `old` local: the test compares unrelated values")
+            else:
+                i_save, sv = saves[0]
+                cur = sv.value.id
+                upd = [i for i, s_ in enumerate(loop.body) if isinstance(s_, ast.Assign) and isinstance(s_.targets[0], ast.Name) and s_.targets[0].id == cur]
+                if not upd or min(upd) < i_save:
+                    problems.append("the current latitude is recomputed before it is saved: old and new are always equal")
+    if problems:
+        chk.record("ITER-TEST", site, "loop continues while |old - new| > small tolerance, saving old before the update", verdict="VIOLATION", detail="; ".join(problems))
+        chk.finding("ITER-TEST", FR, "ecef2geodetic", "shape of the latitude iteration", "; ".join(problems), line=loop.lineno)
+    else:
+        chk.record("ITER-TEST", site, "loop continues while |old - new| > small tolerance, saving old before the update")
+
+
+def geodetic_pair(chk, prog):
+    """GEODETIC: (i) geodetic2ecef is the textbook forward model ((N+h) cos lat cos lon, (N+h) cos lat sin lon, (N(1-e^2)+h) sin lat) with N = a/sqrt(1 - e^2 sin^2 lat)
+    and e^2 = (a^2-b^2)/a^2, angles given in degrees; (ii) at the converged state of its iteration ecef2geodetic returns that latitude and longitude
+    converted to degrees (the height is FIXPOINT's obligation).  Together with FIXPOINT the pair is a round trip."""
+    from sa.lib import DEG2RAD_of
+    fwd = prog.func(FR + "::geodetic2ecef")
+    inv = prog.func(FR + "::ecef2geodetic")
+    chk.touch(fwd)
+    chk.touch(inv)
+    it0 = Interp(prog)
+    D = DEG2RAD_of(it0, prog.module(FR))
+
+    def forward():
+        lat, lon, h, a, b = P.sym("glat"), P.sym("glon"), P.sym("gh"), P.sym("ga"), P.sym("gb")
+        it = Interp(prog, oracle=lambda c, i: False if c.op in (">", ">=", "<", "<=") else None)      # range validation not taken
+        out = to_obj(it.run(fwd, [lat, lon, h, a, b]))
+        e2 = (a * a - b * b) / (a * a)
+        phi, lam = lat * D, lon * D
+        N = a / P.sqrt(1 - e2 * P.sin(phi) ** 2)
+        want = np.array([(N + h) * P.cos(phi) * P.cos(lam), (N + h) * P.cos(phi) * P.sin(lam), (N * (1 - e2) + h) * P.sin(phi)], dtype=object)
+        return eq(out, want, "geodetic2ecef")
+    chk.ob("GEODETIC.forward", fwd.ref, "geodetic2ecef(lat, lon, h) is the textbook forward model (degrees in)", forward, module=FR, function="geodetic2ecef",
+           construct="forward model", line=fwd.node.lineno)
+
+    body = inv.body()
+    li = max((i for i, s_ in enumerate(body) if isinstance(s_, ast.While)), default=None)
+    if li is None:
+        return
+    loop, prefix, tail = body[li], body[:li], body[li + 1:]
+    carried = [t.id for s_ in loop.body if isinstance(s_, ast.Assign) for t in s_.targets if isinstance(t, ast.Name)
+               and any(isinstance(c_, ast.Call) and ast.unparse(c_.func).endswith("arctan2") for c_ in ast.walk(s_.value))]
+    if len(carried) != 1:
+        return
+    latn = carried[0]
+
+    def angles():
+        phi, lam, p, z, a, b = P.sym("iphi"), P.sym("ilam"), P.sym("ip"), P.sym("iz"), P.sym("ia"), P.sym("ib")
+        P.declare_positive(p)
+        it = Interp(prog, oracle=lambda c, i: False if c.op in ("<", ">", "<=", ">=") else None)
+        env = Env(inv.module, inv)
+        env.vars.update({"x": p * P.cos(lam), "y": p * P.sin(lam), "z": z, "a": a, "b": b})
+        it.exec_block(prefix, env)
+        lon_val = None
+        # the longitude local: the arctan2 of the prefix whose arguments are (y, x)
+        for k, v in env.vars.items():
+            at = tan_args(v) if isinstance(v, P.Rat) else None
+            if at is not None and k != latn:
+                lon_val = (k, at)
+        env.vars[latn] = phi
+        r = it.exec_block(tail, env)
+        if r is None or r[0] is not _RET:
+            return (None, "post-loop block does not return")
+        out = to_obj(r[1])
+        res = [eq(out[0] * D, phi, "returned latitude (degrees) * DEG2RAD")]
+        lo = out[1] * D
+        at = tan_args(lo)
+        if at is None:
+            res.append((None, "returned longitude is not RAD2DEG * arctan2(., .)"))
+        else:
+            res.append(eq(at[0] * P.cos(lam), at[1] * P.sin(lam), "tan(longitude) == y/x"))
+        return all_of(*res)
+    chk.ob("GEODETIC.angles", inv.ref, "ecef2geodetic returns the converged latitude and arctan2(y, x), both in degrees", angles, module=FR, function="ecef2geodetic",
+           construct="returned angles", line=inv.node.lineno)
+
+
 def rd_rule(chk, prog):
     mod = prog.module(FR)
     n = 0
@@ -306,6 +418,8 @@ def run(chk, prog, tier):
     run_identities(chk, prog)
     height_rule(chk, prog)
     fixpoint_rule(chk, prog)
+    geodetic_pair(chk, prog)
+    iteration_shape(chk, prog)
     rd_rule(chk, prog)
     pure_rule(chk, prog)
     chk.require_count("ENU.roundtrip", 2)
